@@ -293,7 +293,38 @@ func (i *yamlInputIter) Next() (any, bool) {
 		i.err = &yamlParseError{i.fname, i.ir.getContents(nil, nil), err}
 		return i.err, true
 	}
-	return v, true
+	return normalizeYAMLNumbers(v), true
+}
+
+// normalizeYAMLNumbers rewrites the numbers spelled in the YAML way
+// (+1, 1., -.5, 1.e3) to the JSON spelling so that they are printed as JSON.
+func normalizeYAMLNumbers(v any) any {
+	switch v := v.(type) {
+	case json.Number:
+		s := strings.TrimPrefix(string(v), "+")
+		i := strings.IndexAny(s, "eE")
+		if i < 0 {
+			i = len(s)
+		}
+		m, sign := strings.CutPrefix(s[:i], "-")
+		if strings.HasPrefix(m, ".") {
+			m = "0" + m
+		}
+		m = strings.TrimSuffix(m, ".")
+		if sign {
+			m = "-" + m
+		}
+		return json.Number(m + s[i:])
+	case []any:
+		for i, x := range v {
+			v[i] = normalizeYAMLNumbers(x)
+		}
+	case map[string]any:
+		for k, x := range v {
+			v[k] = normalizeYAMLNumbers(x)
+		}
+	}
+	return v
 }
 
 func (i *yamlInputIter) Close() error {
